@@ -559,6 +559,10 @@ class PteraTransformer(NodeTransformer):
         elif isinstance(target, ast.Starred):
             return self.generate_interactions(target.value)
 
+        elif isinstance(target, (ast.Attribute, ast.Subscript)):
+            # e.g. "for o.x in xs" or "with cm as d[k]": not a variable binding
+            return []
+
         else:  # pragma: no cover
             raise NotImplementedError(target)
 
@@ -672,6 +676,17 @@ class PteraTransformer(NodeTransformer):
                 orelse=self.visit_body(node.orelse),
             ),
             node,
+        )
+
+    def visit_With(self, node):
+        new_body = []
+        for item in node.items:
+            item.context_expr = self.visit(item.context_expr)
+            if item.optional_vars is not None:
+                new_body.extend(self.generate_interactions(item.optional_vars))
+        new_body.extend(self.visit_body(node.body))
+        return ast.copy_location(
+            ast.With(items=node.items, body=new_body), node
         )
 
     def visit_ExceptHandler(self, node):
